@@ -6,7 +6,7 @@ from gen import jsonrt as J
 
 class P(Prop):
     ID = "C19"
-    THEOREMS = ["C19_refuted_nonascii", "C19_flat_object_round_trip", "C19_flat_domain_inhabited", "C19_scanner_reads_written", "C19_integer_text_parses", "C19_nested_example"]
+    THEOREMS = ["C19_refuted_nonascii", "C19_flat_object_round_trip", "C19_flat_domain_inhabited", "C19_scanner_reads_written", "C19_integer_text_parses", "C19_int_array_round_trip", "C19_int_array_domain_inhabited", "C19_bool_array_round_trip", "C19_null_array_round_trip", "C19_string_array_round_trip", "C19_float_array_round_trip", "C19_nested_example"]
     COQ_TARGETS = ["theories/Props/C19.vo", "theories/Extract.vo"]
     N_QUICK = 3000
     N_THOROUGH = 60000
@@ -38,7 +38,17 @@ class P(Prop):
         return "SKIP" if out == "FLOATTEXT" else out
 
     def canon_model(self, line, out):
-        return out.rsplit(" flat=", 1)[0] if out else out
+        return out.rsplit(" flat=", 1)[0] if out else out        # the suffix says whether the tree is in the domain of a round-trip theorem
+
+    def model_stats(self, cases, model):
+        # how many generated trees lie inside the domain of a proved round-trip theorem (flat objects, typed arrays), per kind: the theorems are not vacuous on
+        # what Rust really prints (float texts included)
+        import collections
+        c = collections.Counter()
+        for l, m in zip(cases, model):
+            if m and " flat=" in m:
+                c["%s:%s" % (meta(l).get("kind", "?"), "in-theorem-domain" if m.endswith("flat=1") else "outside")] += 1
+        return dict(c)
 
     def oracle(self, line, out):
         if out is None or out.startswith(("CRASH", "PANIC")) or out.endswith("| PANIC"):
